@@ -172,6 +172,37 @@ def szOp (ws : List String) : Option String := do
       let cs := checksum out
       pure s!"ok len={n} head={hd} sum={cs} back={back}"
 
+/-- serialise a Sync(1 s, 2 ns) with header `h` and no TLVs into a zeroed 64-octet buffer; bytes and parse-back -/
+def hdrRoundTrip (h : Header) : String :=
+  let m : Message := { header := h, body := .sync ⟨1, 2⟩, suffix := [] }
+  match m.serialize (List.replicate 64 0) with
+  | .error f => failStr f
+  | .ok out =>
+    let back := match Message.deserialize out with
+      | .ok m2 => if m2 = m then "eq" else "neq"
+      | .error f => failStr f
+    let hx := hexOfBytes out
+    s!"ser={hx} back={back}"
+
+/-- `hd maj= min= sdo= dom= seq= li=`: header fields through the validating constructors -/
+def hdOp (ws : List String) : Option String := do
+  let maj ← kvNat? ws "maj"
+  let min ← kvNat? ws "min"
+  let sdo ← kvNat? ws "sdo"
+  let dom ← kvNat? ws "dom"
+  let seq ← kvNat? ws "seq"
+  let li ← kvNat? ws "li"
+  let v := if (PtpVersion.new? maj min).isSome then "ok" else "err"
+  let s := if (SdoId.new? sdo).isSome then "ok" else "err"
+  match Header.construct? maj min sdo dom seq li with
+  | none => pure s!"ver={v} sdo={s}"
+  | some h => pure s!"ver={v} sdo={s} {hdrRoundTrip h}"
+
+/-- `hn min=`: `Header::new(min)` (unvalidated minor version) -/
+def hnOp (ws : List String) : Option String := do
+  let min ← kvNat? ws "min"
+  pure (hdrRoundTrip (Header.new min))
+
 def stepLine (st : St) (line : String) : St × String :=
   match words line with
   | "cfg" :: ws =>
@@ -181,6 +212,8 @@ def stepLine (st : St) (line : String) : St × String :=
   | "srv" :: ws => (st, (srvOp st ws).getD "bad-op")
   | "de" :: ws => (st, (deOp ws).getD "bad-op")
   | "sz" :: ws => (st, (szOp ws).getD "bad-op")
+  | "hd" :: ws => (st, (hdOp ws).getD "bad-op")
+  | "hn" :: ws => (st, (hnOp ws).getD "bad-op")
   | "scfg" :: ws =>
     match kvNat? ws "domain", (kv? ws "active").bind parseBool with
     | some d, some a => ({ st with src := { st.src with domain := d, active := a } }, "ok")
